@@ -20,6 +20,7 @@ pub static PROP: Prop = Prop {
         "no exact layer is demanded beyond: strictly increasing along dependencies, minimum 0, number of distinct layers = longest chain",
     ],
     fixed: None,
+    scale: None,
 };
 
 pub struct LayerRef {
